@@ -8,8 +8,8 @@ use bitstream_io::SignedBitCount;
 use flac_codec::metadata::contiguous::Contiguous;
 use flac_codec::metadata::cuesheet::{CDDAOffset, Digit, Index, IndexVec, LeadOutCDDA, LeadOutNonCDDA, TrackCDDA, TrackNonCDDA, ISRC};
 use flac_codec::metadata::{
-    read_block, read_blocks, read_info, write_blocks, Application, AsBlockRef, Block, BlockList, BlockRef, BlockSize, BlockType, Cuesheet, MetadataBlock, Padding, Picture, PictureType, SeekPoint, SeekTable,
-    Streaminfo, VorbisComment,
+    read_block, read_blocks, read_info, write_blocks, Application, AsBlockRef, Block, BlockList, BlockRef, BlockSize, BlockType, Cuesheet, MetadataBlock, OptionalMetadataBlock, Padding, Picture, PictureType, SeekPoint,
+    SeekTable, Streaminfo, VorbisComment,
 };
 use serde_json::{json, Value};
 use std::num::NonZero;
@@ -480,6 +480,27 @@ fn first_diff(a: &[BlockRef<'_>], b: &[BlockRef<'_>]) -> String {
     "equal".into()
 }
 
+fn canon(blocks: &[Block]) -> Vec<Block> {
+    blocks
+        .iter()
+        .map(|b| match b {
+            Block::Streaminfo(si) if si.md5 == Some([0; 16]) => {
+                let mut si = si.clone();
+                si.md5 = None;
+                Block::Streaminfo(si)
+            }
+            Block::SeekTable(t) if t.points.iter().any(|p| matches!(p, SeekPoint::Defined { sample_offset: u64::MAX, .. })) => {
+                let pts: Vec<SeekPoint> = t.points.iter().map(|p| match p { SeekPoint::Defined { sample_offset: u64::MAX, .. } => SeekPoint::Placeholder, p => p.clone() }).collect();
+                match pts.try_into() {
+                    Ok(points) => Block::SeekTable(flac_codec::metadata::SeekTable { points }),
+                    Err(_) => b.clone(),
+                }
+            }
+            b => b.clone(),
+        })
+        .collect()
+}
+
 fn rb<T>(bytes: &[u8], blocks: &[Block], f: &mut Findings)
 where
     T: MetadataBlock + PartialEq + std::fmt::Debug,
@@ -578,6 +599,10 @@ fn check(blocks: &[Block], list: Option<&BlockList>, lenient: bool) -> Out {
         }
     }
     // ---- read paths
+    // Format aliases: an all-zero MD5 *is* "no MD5" and sample number 2^64-1 *is* a placeholder in the FLAC format,
+    // so those written values are expected to read back in their canonical form (not a round-trip defect).
+    let canon_blocks = canon(blocks);
+    let blocks: &[Block] = &canon_blocks;
     let want = refs(blocks);
     steps += 1;
     let reread: Option<BlockList> = match guarded(|| BlockList::read(&bytes[..])) {
@@ -756,6 +781,23 @@ fn run_specs(specs: &[Value], via: &str, lenient: bool) -> Out {
                 if l.blocks().collect::<Vec<_>>() != refs(&model) {
                     out.findings.push(("blocklist|insert-semantics".into(), format!("BlockList after inserts holds {} instead of {}", short(&l.blocks().collect::<Vec<_>>()), short(&refs(&model)))));
                 }
+                // get::<T>() = first block of that type
+                fn first<T: OptionalMetadataBlock + PartialEq + std::fmt::Debug>(l: &BlockList, model: &[Block], f: &mut Findings) {
+                    let want: Option<T> = model.iter().find(|b| b.block_type() == T::TYPE).and_then(|b| T::try_from(b.clone()).ok());
+                    if l.get::<T>() != want.as_ref() {
+                        f.push((format!("blocklist|get|{}", T::TYPE), format!("BlockList::get::<{}>() returns {} instead of {}", T::TYPE, short(&l.get::<T>()), short(&want))));
+                    }
+                }
+                first::<Padding>(&l, &model, &mut out.findings);
+                first::<Application>(&l, &model, &mut out.findings);
+                first::<SeekTable>(&l, &model, &mut out.findings);
+                first::<VorbisComment>(&l, &model, &mut out.findings);
+                first::<Cuesheet>(&l, &model, &mut out.findings);
+                first::<Picture>(&l, &model, &mut out.findings);
+                if l.streaminfo() != match &model[0] { Block::Streaminfo(s) => s, _ => unreachable!() } {
+                    out.findings.push(("blocklist|streaminfo".into(), "BlockList::streaminfo() differs from the STREAMINFO it was built from".into()));
+                }
+                out.steps += 7;
                 out
             }
         }
@@ -770,6 +812,9 @@ fn exec(acc: &mut Acc, group: &str, specs: Vec<Value>, via: &str, lenient: bool)
     acc.executions += 1;
     acc.transitions += out.steps;
     acc.dim(&format!("cases_{group}"), 1);
+    if group != "si" && acc.dims.get(&format!("cases_{group}")) == Some(&1) && matches!(group, "pair" | "cue-cdda" | "cue-non" | "vc" | "pic" | "seek" | "invalid") {
+        acc.sample(json!({"kind":"c11-list","blocks":specs,"via":via,"result":out.label}));
+    }
     // triples would add 13³ kind combinations: keep the result class only
     let label = if group == "triple" { out.label.split_once(':').map(|x| x.1.to_string()).unwrap_or(out.label.clone()) } else { out.label.clone() };
     acc.outcome(format!("{group}:{label}"));
@@ -806,7 +851,7 @@ fn streaminfo_product(ctx: &Ctx, acc: &mut Acc) {
                                             continue;
                                         }
                                         let s = json!({"t":"si","minb":minb,"maxb":maxb,"minf":minf,"maxf":maxf,"rate":rate,"ch":ch,"bps":bps,"total":total,"md5":md5});
-                                        if acc.states % 5000 == 0 {
+                                        if acc.states % 20000 == 0 {
                                             acc.sample(json!({"kind":"c11-list","blocks":[s.clone()],"via":"slice"}));
                                         }
                                         exec(acc, "si", vec![s], "slice", false);
